@@ -262,7 +262,7 @@ func runC12(rc *RunCtx) {
 				sc.IdleBefore = time.Duration(200+t.Choose(2800)) * time.Millisecond
 			}
 		}
-		if len(calls) == 1 && sc.Fault == FStall && t.Chance(1, 150) {
+		if len(calls) == 1 && sc.Fault == FStall && t.Chance(1, 60) {
 			// a long history on one client: healthy exchanges of all sizes, and after each of them the same corrupted
 			// reply again - wherever the client keeps received bytes, no position in it may let the bad frame through
 			n := historyLen(t)
